@@ -92,6 +92,8 @@ func Key9(p *core.Prog, r *core.Report) {
 				fed = c.Args[0]
 			case (id == "io.Copy" || id == "io.WriteString" || id == core.PkgMain+".attach") && len(c.Args) == 2 && isHash(core.ObjOf(info, c.Args[0])):
 				fed = c.Args[1]
+			case id == core.PkgMain+".attach" && len(c.Args) == 2 && isHash(core.ObjOf(info, c.Args[1])):
+				fed = c.Args[0] // the repository's own helper: whichever operand is the hash, the other one is what it is fed
 			case (id == "fmt.Fprint" || id == "fmt.Fprintf" || id == "fmt.Fprintln") && len(c.Args) >= 1 && isHash(core.ObjOf(info, c.Args[0])):
 				if len(c.Args) > 1 {
 					fed = c.Args[len(c.Args)-1]
